@@ -251,12 +251,10 @@ func runOne(rec *Recorder, sc *ScriptConn, cx *layer4.Connection, compiled layer
 		}
 	}
 	if rec.TeeSeen {
-		// the branch's pipe closes when the main chain reads EOF; otherwise it never finishes
-		wait := 2 * time.Millisecond
-		if last := rec.Last(); last != nil && (last["e"] == "Term" || last["e"] == "HRead") {
-			wait = 500 * time.Millisecond
-		}
-		rec.WaitBranch(wait)
+		// the branch's pipe closes when the main chain reads EOF; otherwise it never finishes: wait until the branch has
+		// read as far as the main chain has (it runs in a goroutine of its own and may be behind on a busy machine),
+		// two seconds at most - a branch that never gets there is what R8 reports
+		rec.WaitBranch(2 * time.Second)
 	}
 	if bl, _, _, _ := layer4.VerifConnState(cx); true {
 		rec.NoteBuf(bl)
